@@ -96,8 +96,8 @@ TABLE = {
   ('C12_vec_roundtrip', 'CollObsP', 'vector_from_ssz_roundtrip'), ('C12_enc_refines', 'RefineB', 'refines_OSszEnc_valid'), ('C12_dec_refines', 'RefineB', 'refines_OSszList'), ('C12_vec_strict', 'CollObsP', 'vector_from_ssz_strict_spec'),
  ],
  'C13': [
-  ('C13_ser', 'CollObsP', 'serde_ser_spec'), ('C13_de_list', 'CollObsP', 'list_serde_de_spec'),
-  ('C13_de_vec', 'CollObsP', 'vector_serde_de_spec'), ('C13_de_eq', 'CodecP', 'list_serde_de_eq'),
+  ('C13_ser', 'CollObsP', 'serde_ser_spec'), ('C13_de_list', 'CollObsP', 'list_serde_de_ok'), ('C13_de_list_too_long', 'CollObsP', 'list_serde_de_fail'),
+  ('C13_de_vec', 'CollObsP', 'vector_serde_de_ok'), ('C13_de_vec_wrong_len', 'CollObsP', 'vector_serde_de_fail'), ('C13_ser_refines', 'RefineB', 'refines_OSerdeSer'), ('C13_de_refines', 'RefineB', 'refines_OSerdeList'), ('C13_de_vec_refines', 'RefineB', 'refines_OSerdeVec'), ('C13_de_eq', 'CodecP', 'list_serde_de_eq'),
  ],
  'C14': [
   ('C14_vecmap', 'UMapP', 'vecmap_lawful'), ('C14_btmap', 'UMapP', 'btmap_lawful'), ('C14_maxmap', 'UMapP', 'maxmap_lawful'),
